@@ -25,7 +25,7 @@ B8 = "8 symbolic leaf digests (stub hasher); position set enumerated concretely"
 kani_unit("crypto_merkle", "winter-crypto", "crypto/src/merkle/mod.rs", "kani/crypto_merkle.rs", "merkle", [
     H("merkle_root_bounded", ["C10"], ["MerkleTree::new", "build_merkle_nodes"], "root == reference fold of the leaves", bounded="4 and 8 symbolic leaves"),
     H("merkle_prove_verify_bounded", ["C10"], ["MerkleTree::prove", "MerkleTree::verify"],
-      "forall i < 8: verify(root, i, prove(i)) is Ok; a different claimed leaf is rejected; prove(8) is an error", bounded="8 symbolic leaves, symbolic position"),
+      "forall i < 8: verify(root, i, prove(i)) is Ok; a different claimed leaf is rejected; prove(8) is an error", bounded="8 symbolic leaves, symbolic position", tier="thorough"),
     H("merkle_canary_must_fail", ["C10"], [], "false claim: the opening of leaf 1 verifies at position 2", canary=True),
 ])
 for u in UNITS:
@@ -53,7 +53,7 @@ for _n, _file in (("12", "mds_f64_12x12"), ("8", "mds_f64_8x8")):
     kani_unit("crypto_mds%s" % _n, "winter-crypto", "crypto/src/hash/mds/%s.rs" % _file, "kani/crypto_mds%s.rs" % _n, "hash::mds::%s" % _file, [
         H("mds%s_canonical_no_overflow_contract" % _n, ["C11"], ["%s::mds_multiply" % _file, "%s::mds_multiply_freq" % _file, "%s::block1/2/3" % _file, "fft::real_u64::fft4_real/ifft4_real_unreduced"],
           "forall states of canonical elements: no i64/u64 overflow in the frequency-domain path and every output element is canonical (< M)",
-          timeout=900, cost=5),
+          timeout=900, cost=5, tier="thorough" if _n == "12" else "quick"),
         H("mds%s_unit_vectors_contract" % _n, ["C11"], ["%s::mds_multiply" % _file],
           "on every unit vector scaled by a symbolic 32-bit factor the result is the corresponding column of the documented circulant MDS matrix (with linearity, which is not proved here, this is the matrix product)",
           bounded="one non-zero coordinate, every position; raw value symbolic 32-bit for 8x8 (thorough tier), 1 and 2^32-1 for 12x12",
@@ -68,7 +68,7 @@ PERM = "Rescue permutation replaced by a mixing double and BaseElement::new by i
 kani_unit("crypto_rp64", "winter-crypto", "crypto/src/hash/rescue/rp64_256/mod.rs", "kani/crypto_rp64.rs", "hash::rescue::rp64_256", [
     H("rp64_hash_bytes_len%d_bounded" % L, ["C11"], ["Rp64_256::hash", "Rp64_256::hash_elements"],
       "hash(bytes) never panics and == hash_elements(encode(bytes)): 7-byte chunks, 0x01 terminator after the last byte, element count in the capacity",
-      bounded="byte strings of length %d (content symbolic)" % L, timeout=900)
+      bounded="byte strings of length %d (content symbolic)" % L, timeout=900, tier="thorough" if L >= 57 else "quick")
     for L in (0, 1, 7, 8, 56, 57, 63)
 ] + [
     H("rp64_hash_elements_len%d_bounded" % L, ["C11", "C19"], ["Rp64_256::hash_elements"],
@@ -80,9 +80,9 @@ kani_unit("crypto_rp64", "winter-crypto", "crypto/src/hash/rescue/rp64_256/mod.r
       "hashing 3 quadratic / 2 cubic extension elements / one quadratic element with zero tail == the documented sponge over the flattened residues (no dependence on base versus extension typing)",
       bounded="6 symbolic residues", timeout=900),
     H("rp64_merge_is_hash_of_concatenation_contract", ["C11"], ["Rp64_256::merge", "Rp64_256::hash_elements"],
-      "forall digests a, b: merge([a, b]) == hash_elements(a || b)", timeout=900),
+      "forall digests a, b: merge([a, b]) == hash_elements(a || b)", timeout=900, tier="thorough"),
     H("rp64_merge_with_int_contract", ["C11", "C19", "C04", "C03"], ["Rp64_256::merge_with_int"],
-      "forall seed, v: u64: merge_with_int(seed, v) == hash_elements(seed || [v]) if v < M else hash_elements(seed || [v mod M, v div M]); the absorbed encoding is injective in v", timeout=1200),
+      "forall seed, v: u64: merge_with_int(seed, v) == hash_elements(seed || [v]) if v < M else hash_elements(seed || [v mod M, v div M]); the absorbed encoding is injective in v", timeout=1200, tier="thorough"),
     H("rp64_canary_must_fail", ["C11", "C19", "C04", "C03"], [], "false claim: all 3-byte strings hash equally", canary=True),
 ])
 for u in UNITS:
@@ -92,7 +92,7 @@ for u in UNITS:
 kani_unit("crypto_rp62", "winter-crypto", "crypto/src/hash/rescue/rp62_248/mod.rs", "kani/crypto_rp62.rs", "hash::rescue::rp62_248", [
     H("rp62_hash_bytes_len%d_bounded" % L, ["C11"], ["Rp62_248::hash", "Rp62_248::hash_elements"],
       "hash(bytes) never panics and == hash_elements(encode(bytes)): 7-byte chunks, 0x01 terminator after the last byte, element count in the capacity",
-      bounded="byte strings of length %d (content symbolic)" % L, timeout=900)
+      bounded="byte strings of length %d (content symbolic)" % L, timeout=900, tier="thorough" if L >= 57 else "quick")
     for L in (0, 1, 7, 8, 56, 57, 63)
 ] + [
     H("rp62_hash_elements_len%d_bounded" % L, ["C11", "C19"], ["Rp62_248::hash_elements"],
@@ -105,7 +105,7 @@ kani_unit("crypto_rp62", "winter-crypto", "crypto/src/hash/rescue/rp62_248/mod.r
     H("rp62_merge_is_hash_of_concatenation_contract", ["C11"], ["Rp62_248::merge", "Rp62_248::hash_elements"],
       "forall digests a, b: merge([a, b]) == hash_elements(a || b)", timeout=900),
     H("rp62_merge_with_int_contract", ["C11", "C19", "C04", "C03"], ["Rp62_248::merge_with_int"],
-      "forall seed, v: u64: merge_with_int(seed, v) == hash_elements(seed || [v]) if v < M else hash_elements(seed || [v mod M, v div M]); the absorbed encoding is injective in v", timeout=1200),
+      "forall seed, v: u64: merge_with_int(seed, v) == hash_elements(seed || [v]) if v < M else hash_elements(seed || [v mod M, v div M]); the absorbed encoding is injective in v", timeout=1200, tier="thorough"),
     H("rp62_canary_must_fail", ["C11", "C19", "C04", "C03"], [], "false claim: all 3-byte strings hash equally", canary=True),
 ])
 for u_ in UNITS:
@@ -128,7 +128,7 @@ kani_unit("crypto_rpjive", "winter-crypto", "crypto/src/hash/rescue/rp64_256_jiv
     H("rpjive_merge_contract", ["C11"], ["RpJive64_256::merge", "RpJive64_256::apply_jive_summation"],
       "forall digests a, b: merge([a, b]) == the Jive compression (input halves + permuted halves) of the block a || b", timeout=900),
     H("rpjive_merge_with_int_contract", ["C11", "C19", "C04", "C03"], ["RpJive64_256::merge_with_int"],
-      "forall seed, v: u64: merge_with_int(seed, v) == Jive compression of seed || [v, 0, 0, 5] if v < M else of seed || [v mod M, v div M, 0, 6]; the absorbed block is injective in v (a nonce and nonce + M are absorbed differently)", timeout=1200),
+      "forall seed, v: u64: merge_with_int(seed, v) == Jive compression of seed || [v, 0, 0, 5] if v < M else of seed || [v mod M, v div M, 0, 6]; the absorbed block is injective in v (a nonce and nonce + M are absorbed differently)", timeout=1200, tier="thorough"),
     H("rpjive_canary_must_fail", ["C11", "C19", "C04", "C03"], [], "false claim: all 3-byte strings hash equally", canary=True),
 ])
 for u_ in UNITS:
@@ -152,8 +152,8 @@ native_unit("hash_native", "winter-crypto", "crypto", "native/hash_bounded.rs", 
             "NATIVE EXECUTION, not a proof: 3 hashers x 3 base fields; byte strings of every length 0..=200 (seeded content); 40 seeded digest pairs x 17 integers at the 64-bit boundaries and around the moduli; element lists of 0..=20 elements produced by additions, negations, subtractions and products (non-normalised representatives), regrouped into quadratic / cubic elements")
 
 
-native_unit("rescue_native", "winter-crypto", "crypto", "native/rescue_bounded.rs", ["C11"],
-            ["Rp64_256::{apply_round, apply_permutation, hash_elements, merge}", "RpJive64_256::{apply_round, apply_permutation, hash_elements}", "the private helpers behind them: apply_sbox, apply_inv_sbox (exponentiation chains), apply_mds (frequency-domain fast path), add_constants"],
-            "every round and the 7-round permutation equal the documented Rescue Prime round ARK2[r] + MDS * ((ARK1[r] + MDS * s^7)^(1/7)) computed independently over 128-bit reference arithmetic from the public MDS / ARK constants; hash_elements (and Rp64_256::merge) equal the documented sponge run on the reference permutation",
+native_unit("rescue_native", "winter-crypto", "crypto", "native/rescue_bounded.rs", ["C11", "C03", "C04", "C19"],
+            ["Rp64_256::{apply_round, apply_permutation, hash_elements, merge, merge_with_int, hash}", "RpJive64_256::{apply_round, apply_permutation, hash_elements, merge, merge_with_int, hash}", "Rp62_248::{hash, hash_elements, merge, merge_with_int} (relations between its public functions)", "the private helpers behind them: apply_sbox, apply_inv_sbox (exponentiation chains), apply_mds (frequency-domain fast path), add_constants"],
+            "every round and the 7-round permutation equal the documented Rescue Prime round ARK2[r] + MDS * ((ARK1[r] + MDS * s^7)^(1/7)) computed independently over 128-bit reference arithmetic from the public MDS / ARK constants; hash_elements (and Rp64_256::merge) equal the documented sponge run on the reference permutation; hash(bytes) == hash_elements(encode(bytes)) for every length 0..=130, merge == hash of the concatenation, merge_with_int == hash_elements(seed || split(value)) resp. the Jive compression of the documented block, and merge_with_int is injective on 12 boundary integers (the native counterparts of the Kani contracts that run in the thorough tier)",
             "NATIVE EXECUTION, not a proof: 16 boundary values (0, 1, p-1, 2^32-1, 2^32, 2^63-1, ...) in every lane together, alone in each lane over zeros and over p-1, 300 seeded states, each x 7 rounds + the permutation; sponges on lists of 0..20 elements x 6 draws",
             timeout=900)
